@@ -1,4 +1,6 @@
 """C01 - trades honour both limits; one price per round, set by the resting side."""
+import numbers
+
 from .. import taps
 from ..core import canon_hash
 from ..direct import DirectRun, gen_deep_cancel_history, gen_history
@@ -85,7 +87,7 @@ class C01Monitor(BookTracker):
             if log.market_id != mkt.market_id or log.buy_agent_id != b.agent_id or log.sell_agent_id != s.agent_id:
                 res.violation("a", "fill-fields-do-not-match-orders", witness())
                 bad = True
-            if not isinstance(log.volume, int) or log.volume <= 0:
+            if not isinstance(log.volume, numbers.Integral) or log.volume <= 0:
                 res.violation("a", "fill-volume-not-positive", witness())
                 bad = True
             if log.time != ev["time"]:
